@@ -172,8 +172,13 @@ func extraC20ScannerNotResumed(c *Ctx, r *Report) {
 				if check(first) {
 					bad = first.Pos()
 				}
+				// a path that creates the scanner anew (an outer loop with one scanner per connection) starts over
+				renewed := func(x ssa.Instruction) bool {
+					v, ok := x.(ssa.Value)
+					return ok && v == scanner
+				}
 				eachInstr(f, func(y ssa.Instruction) {
-					if check(y) && bad == token.NoPos && reachAvoiding(first, y, nil) {
+					if check(y) && bad == token.NoPos && !renewed(first) && reachAvoiding(first, y, renewed) {
 						bad = y.Pos()
 					}
 				})
@@ -496,7 +501,15 @@ func extraCheckNeverReportsUnknown(c *Ctx, r *Report, rule string) {
 		return
 	}
 	n := 0
-	eachInstrDeep(chk, func(f *ssa.Function, in ssa.Instruction) {
+	// Check, its closures, and the helpers of its package it builds results with — not the probe itself (the function
+	// that sends the request starts from `unknown` and classifies, C03-R23)
+	isProbe := func(g *ssa.Function) bool {
+		return containsCall(c, g, 1, func(cc *ssa.CallCommon) bool {
+			n := describeCall(cc).Name
+			return n == "NewRequestWithContext" || n == "NewRequest" || n == "Do" || n == "RoundTrip"
+		})
+	}
+	scan := func(f *ssa.Function, in ssa.Instruction) {
 		st, ok := in.(*ssa.Store)
 		if !ok || !isField(st.Addr, pkgDomain, "HealthCheckResult", "Status") {
 			return
@@ -511,6 +524,18 @@ func extraCheckNeverReportsUnknown(c *Ctx, r *Report, rule string) {
 			r.Bad(rule, key, in.Pos(), "the check reports the status `unknown` for an endpoint it has just tried to reach: the repository stores it as it is, so a failed endpoint is not marked offline and its later recovery does not trigger model re-discovery")
 		default:
 			r.OK(rule, key, in.Pos(), "a definite status ("+strings.Trim(k.Value.ExactString(), "\"")+")")
+		}
+	}
+	eachInstrDeep(chk, scan)
+	seenH := map[*ssa.Function]bool{chk: true}
+	eachInstrDeep(chk, func(_ *ssa.Function, in ssa.Instruction) {
+		cc := getCall(in)
+		if cc == nil {
+			return
+		}
+		if h := cc.StaticCallee(); h != nil && h.Pkg == chk.Pkg && h.Blocks != nil && h.Parent() == nil && !seenH[h] && !isProbe(h) {
+			seenH[h] = true
+			eachInstrDeep(h, scan)
 		}
 	})
 	if n == 0 {
@@ -730,7 +755,11 @@ func extraC19OneReporter(c *Ctx, r *Report) {
 			n++
 			owner := topParent(f)
 			key := fmt.Sprintf("%s:%s", fname(owner), name)
-			if strings.HasSuffix(fnPkgPath(owner), "/adapter/proxy/core") && (owner.Name() == "RecordSuccess" || owner.Name() == "RecordFailure") {
+			isRecorder := func(g *ssa.Function) bool {
+				return strings.HasSuffix(fnPkgPath(g), "/adapter/proxy/core") && (g.Name() == "RecordSuccess" || g.Name() == "RecordFailure")
+			}
+			// … or a helper that only the recorder calls (`b.reportToStats(endpoint, "error", …)`)
+			if onlyCalledFromAny(c, owner, isRecorder, 2) {
 				r.OK("C19-R21", key, in.Pos(), "reported by the engines' recorder")
 			} else {
 				r.Bad("C19-R21", key, in.Pos(), "a request outcome is reported to the statistics collector outside the engines' recorder: the attempt has already been counted there, so the request is recorded twice (totals and successes drift away from what clients received)")
